@@ -36,7 +36,7 @@ RULE += (
 )
 MUST_HIT = ["div_remainder_multichannel", "div_n_gt_len", "mismatch_sr", "mismatch_sw", "mismatch_ch", "join_3",
             "mutation_refused", "ragged_refused", "silence", "eq_true", "eq_false", "twin_same_bytes_per_sample", "format_grid",
-            "silence_over_1MiB", "augmented_assignment", "join_one_shot_iterable", "div_into_700_or_more", "join_many_then_mismatch"]
+            "silence_over_1MiB", "region_algebra_in_parallel_threads", "augmented_assignment", "join_one_shot_iterable", "div_into_700_or_more", "join_many_then_mismatch"]
 ASSUMPTIONS = ["dividing an empty region is not claimed by the statement and not generated"]
 BOUNDS = {"quick": dict(n=200, steps=30), "thorough": dict(n=4000, steps=50)}
 MAXBYTES = 6000
@@ -347,6 +347,54 @@ def check_grid(case, rec):
     rec.note(case, True, {"format_grid"}, out={"pairs": n})
 
 
+def check_threads(case, rec):
+    """Silences and sums made by several threads at once, each with its own durations / operands: every result is
+    what a single thread gets (the threads give up the interpreter at every line of the library)."""
+    import threading
+
+    from ..common import preempt_every_line
+
+    sr, sw, ch = case["threads_fmt"]
+    bps = sw * ch
+    a = auditok.AudioRegion(content(5, bps, 1), sr, sw, ch)
+    b = auditok.AudioRegion(content(3, bps, 2), sr, sw, ch)
+    wrong = []
+
+    gate = threading.Barrier(case["nthreads"])
+
+    def work(tid):
+        for i in range(case["n"]):
+            try:
+                gate.wait(30)  # all threads enter the library together
+            except threading.BrokenBarrierError:
+                return
+            # ever longer silences, different in every thread, each longer than anything asked for in the round before
+            k = case["base"] + 10 * i + tid * 3
+            r = auditok.make_silence(k / sr, sr, sw, ch)
+            if len(r) != k or bytes(r) != bytes(k * bps):
+                wrong.append(f"make_silence({k}/{sr}) has {len(r)} samples in thread {tid}")
+                gate.abort()
+                return
+            s_ = a + r + b
+            if bytes(s_) != bytes(a) + bytes(k * bps) + bytes(b):
+                wrong.append(f"a + silence + b differs in thread {tid}")
+                return
+            j = r.join([a, b, a])
+            if bytes(j) != bytes(k * bps).join([bytes(a), bytes(b), bytes(a)]):
+                wrong.append(f"silence.join([...]) differs in thread {tid}")
+                return
+
+    with lib_guard(lambda: case), preempt_every_line():
+        ts = [threading.Thread(target=work, args=(t,)) for t in range(case["nthreads"])]
+        for t in ts:
+            t.start()
+        for t in ts:
+            t.join(120)
+    rec.note(case, True, {"region_algebra_in_parallel_threads"}, out="ok")
+    if wrong:
+        raise Violation(wrong[0] + " while other threads were doing the same with their own values", case)
+
+
 def check_div_big(case, rec):
     """a region of L samples divided into n pieces, min(n, L) in the hundreds or thousands"""
     L, n, (sr, sw, ch), salt = case["div_big"]
@@ -422,6 +470,8 @@ def big_case(draw):
 def check_case(case, rec):
     if "grid_fmt" in case:
         return check_grid(case, rec)
+    if "threads_fmt" in case:
+        return check_threads(case, rec)
     if "div_big" in case:
         return check_div_big(case, rec)
     if "join_many" in case:
@@ -532,6 +582,9 @@ class AlgebraMachine(RuleBasedStateMachine):
 def explicit_cases():
     cfg = {"fmt": [10, 2, 2]}
     return [
+        # (first: module-level state that an implementation might keep - a shared buffer, a cache - is still small)
+        {"threads_fmt": [8000, 2, 1], "nthreads": 3, "n": 60, "base": 1},
+        {"threads_fmt": [10, 1, 2], "nthreads": 4, "n": 40, "base": 700},
         {"cfg": cfg, "ops": [["new", 7, 0, 1, None], ["new", 3, 0, 2, 1.5], ["add", 0, 1], ["div", 2, 3], ["div", 1, 9],
                              ["join", 1, [0, 2, 3]], ["mul", 4, 3], ["rmul", 1, 2], ["sum", [0, 1, 2]],
                              ["silence", 3, 0.25, 0], ["slice", 2, -4, None], ["eq", 0, 0], ["eq", 0, 1],
